@@ -574,6 +574,25 @@ pub fn run(case: &Case, ctx: &mut Ctx<'_>) {
                     Some(s) => expect_section(ctx, "make_dwo sup", &s.debug_str, SectionId::DebugStr, &supm),
                     None => ctx.violate("c17_routing", "make_dwo: parent's sup not inherited".into()),
                 }
+                // history 2: the caller marked the freshly loaded Dwarf as a dwo file first (the
+                // `Dwarf::load` docs tell the user to set `file_type` after loading); what make_dwo
+                // takes from the parent must not depend on that
+                let mut dwo2: Dwarf<R> = Dwarf::load(|id| -> Result<R, gimli::Error> { Ok(EndianSlice::new(m2.get(id), LittleEndian)) }).unwrap();
+                dwo2.file_type = DwarfFileType::Dwo;
+                dwo2.make_dwo(&parent);
+                check_dwarf(ctx, "make_dwo(file_type preset)", &dwo2, &m2, &m, &m);
+                match dwo2.sup() {
+                    Some(s) => expect_section(ctx, "make_dwo(file_type preset) sup", &s.debug_str, SectionId::DebugStr, &supm),
+                    None => ctx.violate("c17_routing", "make_dwo(file_type preset): parent's sup not inherited".into()),
+                }
+                // history 3: a second make_dwo with another parent re-routes the pass-through sections
+                let m4 = Markers::new(4);
+                let parent2: Dwarf<R> = Dwarf::load(|id| -> Result<R, gimli::Error> { Ok(EndianSlice::new(m4.get(id), LittleEndian)) }).unwrap();
+                dwo.make_dwo(&parent2);
+                check_dwarf(ctx, "make_dwo(second parent)", &dwo, &m2, &m4, &m4);
+                if dwo.sup().is_some() {
+                    ctx.violate("c17_routing", "make_dwo(second parent): sup of the first parent kept".into());
+                }
             } else {
                 ctx.errs += 1;
             }
